@@ -362,3 +362,103 @@ def rule_return_shape(ctx: Ctx, rel: str, qual: str) -> None:
                      func=qual, construct=f"{qual}: return {norm(r.value)}")
         else:
             ctx.ok("flow.return-shape", m, r)
+
+
+# --------------------------------------------------------------------------- num.hermitian-arg
+
+_HERM_CONSUMERS = {"eigh", "eigvalsh", "sqrtm_psd", "hermitianize"}
+_HERM_PRESERVING = {"sqrtm_psd", "hermitianize", "partial_trace", "bipartite_partial_transpose", "np.real"}
+
+
+def _matmul_chain(e: ast.AST) -> List[ast.AST]:
+    if isinstance(e, ast.BinOp) and isinstance(e.op, ast.MatMult):
+        return _matmul_chain(e.left) + _matmul_chain(e.right)
+    return [e]
+
+
+def _is_dagger_of(a: ast.AST, b: ast.AST) -> bool:
+    t = norm(a)
+    x = norm(b)
+    return t in (f"{x}.conj().T", f"{x}.T.conj()", f"np.conjugate({x}.T)", f"np.conjugate({x}).T", f"np.conj({x}).T", f"np.conj({x}.T)", f"np.transpose(np.conjugate({x}))")
+
+
+def rule_hermitian_args(ctx: Ctx, rel: str, quals: List[str]) -> None:
+    """num.hermitian-arg: eigh / sqrtm_psd read only one triangle of their argument and assume it Hermitian, and hermitianize is
+    a numerical clean-up, not a projection that keeps the spectrum.  Whatever reaches them must be Hermitian by construction:
+    a state, a sum/difference of Hermitian matrices, a palindromic product S @ M @ S of Hermitian factors or X @ X^dagger.
+    rho @ sigma is not (unless the two commute): its Hermitian part has a different spectrum."""
+    repo = ctx.repo
+    m = repo.module(rel)
+    sites = 0
+    for q in quals:
+        fn = repo.anchor(rel, q)
+        ctx.touch(m, fn)
+        params = set(func_params(fn))
+        env: Dict[str, List[ast.AST]] = {}
+        for s in ast.walk(fn):
+            if isinstance(s, ast.Assign) and len(s.targets) == 1 and isinstance(s.targets[0], ast.Name):
+                env.setdefault(s.targets[0].id, []).append(s)
+
+        def herm(e: ast.AST, at: int, depth: int = 0) -> Optional[str]:
+            """None if Hermitian by construction, else the offending sub-expression's text"""
+            if depth > 12:
+                raise AnalysisError(f"{q}: hermitian-by-construction recursion too deep")
+            if isinstance(e, ast.Name):
+                if e.id in env:
+                    prev = [s for s in env[e.id] if s.lineno < at]
+                    if prev:
+                        s = max(prev, key=lambda x: x.lineno)
+                        return herm(s.value, s.lineno, depth + 1)
+                if e.id in params:
+                    return None
+                raise AnalysisError(f"{q}: `{e.id}` not resolved (num.hermitian-arg)")
+            if isinstance(e, ast.Constant):
+                return None if isinstance(e.value, (int, float)) else short(e)
+            if isinstance(e, ast.BinOp):
+                if isinstance(e.op, (ast.Add, ast.Sub)):
+                    return herm(e.left, at, depth + 1) or herm(e.right, at, depth + 1)
+                if isinstance(e.op, (ast.Mult, ast.Div)):
+                    sc = [x for x in (e.left, e.right) if isinstance(x, ast.Constant) or (isinstance(x, ast.Call) and call_name(x) in ("np.real", "float", "np.trace"))]
+                    mats = [x for x in (e.left, e.right) if x not in sc]
+                    if len(mats) == 1:
+                        return herm(mats[0], at, depth + 1)
+                    return short(e, 80)
+                if isinstance(e.op, ast.MatMult):
+                    ch = _matmul_chain(e)
+                    if len(ch) == 2 and (_is_dagger_of(ch[1], ch[0]) or _is_dagger_of(ch[0], ch[1])):
+                        return None
+                    txt = [norm(x) for x in ch]
+                    if txt == txt[::-1] and len(ch) % 2 == 1:
+                        for x in ch[: len(ch) // 2 + 1]:
+                            bad = herm(x, at, depth + 1)
+                            if bad:
+                                return bad
+                        return None
+                    return short(e, 80)
+                return short(e, 80)
+            if isinstance(e, ast.Call):
+                cn = call_name(e) or ""
+                base = cn.split(".")[-1]
+                if (cn in _HERM_PRESERVING or base in _HERM_PRESERVING) and e.args:
+                    return herm(e.args[0], at, depth + 1)
+                if base in ("copy",) and isinstance(e.func, ast.Attribute):
+                    return herm(e.func.value, at, depth + 1)
+                return short(e, 80)
+            if isinstance(e, ast.Attribute) and e.attr == "data":
+                return None
+            return short(e, 80)
+
+        for c in calls_in(fn):
+            base = (call_name(c) or "").split(".")[-1]
+            if base in _HERM_CONSUMERS and c.args:
+                sites += 1
+                bad = herm(c.args[0], c.lineno + 1 if isinstance(c.args[0], ast.Name) and False else c.lineno)
+                if bad is None:
+                    ctx.ok("num.hermitian-arg", m, c, what=f"{q}: {base}() receives a matrix that is Hermitian by construction")
+                else:
+                    ctx.fail("num.hermitian-arg", m, c,
+                             f"{q}: `{short(c, 60)}` receives `{bad}`, which is not Hermitian by construction (a product of two different Hermitian "
+                             f"matrices is Hermitian only when they commute): {base} then works on its Hermitian part, whose eigenvalues are not "
+                             f"those of the product", func=q, construct=f"{q}: {base}() of a non-Hermitian product")
+    if sites == 0:
+        raise AnalysisError(f"{rel}: no eigh / sqrtm_psd / hermitianize call in {quals}")
